@@ -144,6 +144,9 @@ def run(scn):
         probes["valid_design_rejected_at_build"] = 1
         return res
     ref = outs[0]["out"]
+    # what the library returned, variant by variant (for the self-test: two executions of one
+    # scenario that differ *here* are the library's doing, not the harness')
+    res["lib_out"] = hash64(json.dumps([o["out"] for o in outs], sort_keys=True, default=str))
     if isinstance(ref.get("proto"), list):
         res["discard"] = "export failed"
         probes["valid_design_rejected_at_export"] = 1
